@@ -40,13 +40,14 @@ fn any_port(a15: bool, a14: bool) -> u16 {
 // @sym machine, three (register number, value) writes and a final register selection, all through fully symbolic port addresses of the decode classes A15=A14=1,A1=0 (select/read-back) and A15=1,A14=0,A1=0 (data); frame time fixed (1000)
 // @assert reading the AY data port returns the value last written to the selected register, register numbers taken modulo 16 (never-written registers read 0); every data write reaches the sound generator as (register number mod 16, value) in order; AY port cycles never touch the border colour or the paging latch
 // @bound 3 register writes + 1 read-back
-// @stub libm::sqrt -> identity (unsupported SIMD intrinsic); <AymPrecise as AymBackend>::write_register -> logger (generator decode is c18_register_decode in the aym crate); ZXMixer::process -> no-op; ZXScreen::process_clocks -> no-op
+// @stub libm::sqrt -> identity (unsupported SIMD intrinsic); <AymPrecise as AymBackend>::write_register -> logger (generator decode is c18_register_decode in the aym crate); ZXMixer::process -> no-op; ZXMixer::new_frame -> no-op; ZXScreen::process_clocks -> no-op
 // @replay solver-only
 #[kani::proof]
 #[kani::unwind(17)]
 #[kani::stub(libm::sqrt, sqrt_identity)]
 #[kani::stub(<aym::AymPrecise as aym::AymBackend>::write_register, logging_write_register)]
 #[kani::stub(crate::zx::sound::mixer::ZXMixer::process, mh::noop_process)]
+#[kani::stub(crate::zx::sound::mixer::ZXMixer::new_frame, mh::noop_new_frame)]
 #[kani::stub(crate::zx::video::screen::ZXScreen::process_clocks, ch::noop_screen_clocks)]
 fn c18_ay_port_readback() {
     let m = crate::emulator::verif_hooks::any_machine();
